@@ -1543,3 +1543,421 @@ lemma("C13.ord.order", props=_ORD, vars={"N": Set(STR), "S": Set(STR), "O": List
       concl={"order": "official_order(N - S, O) == sx_keep(official_order(N, O), S)"},
       canaries={"nothing-skipped": "official_order(N - S, O) == official_order(N, O)"})
 ORDER_LEMMAS = ["prefix.base", "prefix.step", "concat.base", "concat.step", "concat", "firsts.base", "firsts.step", "sorted.base", "sorted.step", "order"]
+
+
+# =====================================================================================================
+# _GlyphSet.from_layer (util.py): the glyph set the pre-processors work on, built from a layer, optionally copied, with the
+# static skip-export filter run on it.  Under contract: util._copyGlyph (variant SX, over this file's glyph vocabulary),
+# util._copyLayer, _GlyphSet.from_layer (two variants: default layer / named layer).  The filter call inside from_layer uses the
+# contract SkipExportGlyphsFilter.__call__#SXFilter; the CONSTRUCTOR call SkipExportGlyphsFilter(names) is a summary (see
+# _skip_filter_ctor).
+# =====================================================================================================
+from pyvc.api import Opaque  # noqa: E402
+
+_FL_PROPS = ["C13"]
+LIBT = Dict(STR, Opaque("SXLibValue"))
+ANCH = Dict(STR, Opaque("SXAnchorField"))
+
+# ---- vocabulary: what _copyGlyph reads besides name / components / contours ------------------------------------------
+for _f, _t in (("width", REAL), ("height", REAL), ("unicodes", List(INT)), ("anchors", List(ANCH)), ("lib", LIBT)):
+    CLASSES["SXGlyph"].fields[_f] = _t
+CLASSES["SXGlyphSet"].fields["lib"] = LIBT
+
+
+def _glyph_drawPoints(ex, st, self, args, kwargs, node):
+    """glyph.drawPoints(pen) with pen = other.getPointPen() (ufoLib2/defcon Glyph.drawPoints + GlyphPointPen): the outline of
+    `self` is replayed into the pen's glyph G: G gains as many contours as `self` has, and one NEW component per component of
+    `self`, in order, with the same base glyph and the same transformation.  `self` is not modified."""
+    (pen,) = args
+    if not (isinstance(pen.ty, T.Ref) and pen.ty.cls == "SXPointPen"):
+        raise Unsupported("glyph.drawPoints with a pen that is not a glyph's point pen", node)
+    G = ex.read_field(st, pen, "glyph")
+    src = lift(ex.read_field(st, self, "components"))
+    cur = ex.read_field(st, G, "components")
+    cs = lift(cur)
+    new = fresh(cur.ty, "copied")
+    k = z3.Int(fresh_name("ck"))
+    base_arr = ex.field_array(st, "SXComponent", "baseGlyph")
+    tr_arr = ex.field_array(st, "SXComponent", "transformation")
+    st.assume(z3.Length(new) == z3.Length(src))
+    st.assume(z3.ForAll([k], z3.Implies(z3.And(k >= 0, k < z3.Length(src)),
+                                        z3.And(z3.Select(base_arr, new[k]) == z3.Select(base_arr, src[k]), z3.Select(tr_arr, new[k]) == z3.Select(tr_arr, src[k])))))
+    app = _pos_seq(st, cur.ty, z3.Length(cs) + z3.Length(new), lambda p: z3.If(p < z3.Length(cs), cs[p], new[p - z3.Length(cs)]), "drawn")
+    ex.write_field(st, G, "components", Val(cur.ty, app), node)
+    ex.write_field(st, G, "ncontours", Val(INT, lift(ex.read_field(st, G, "ncontours")) + lift(ex.read_field(st, self, "ncontours"))), node)
+    return Val.const(None)
+
+
+_glyph_drawPoints.modifies = ["SXGlyph.components", "SXGlyph.ncontours"]
+CLASSES["SXGlyph"].methods["drawPoints"] = _glyph_drawPoints
+
+
+def _only_this_written(ex, st, self):
+    """frame vocabulary: compared with the pre-state of the function (old), no glyph object OTHER than this one has different
+    components / contours (logical only: `old` cannot mention `result`, so the comparison is packaged as a derived field)"""
+    old = ex.old_state
+    if old is None:
+        raise Unsupported("only_this_written outside a postcondition")
+    out = []
+    for f, d in (("components", z3.Empty(List(Ref("SXComponent")).sort())), ("ncontours", z3.IntVal(0)), ("name", z3.StringVal(""))):
+        now_arr = ex.field_array(st, "SXGlyph", f)
+        old_arr = ex.field_array(old, "SXGlyph", f)
+        out.append(z3.Store(now_arr, lift(self), d) == z3.Store(old_arr, lift(self), d))
+    return Val(BOOL, z3.And(*out))
+
+
+CLASSES["SXGlyph"].derived["only_this_written"] = _only_this_written
+CLASSES["SXGlyph"].views["only_this_written"] = lambda o: True
+
+
+def _factory_call(ex, st, self, args, kwargs, node):
+    """newGlyph(name) (the closure returned by util._getNewGlyphFactory): a NEW empty glyph carrying that name"""
+    g = ex.new_object(st, "SXGlyph")
+    ex.write_field(st, g, "name", args[0], node)
+    ex.write_field(st, g, "components", Val(List(Ref("SXComponent")), z3.Empty(List(Ref("SXComponent")).sort())), node)
+    ex.write_field(st, g, "ncontours", Val(INT, z3.IntVal(0)), node)
+    return g
+
+
+CLASSES["SXFactory"].methods["__call__"] = _factory_call
+
+
+@trusted("c13.deepcopy", "copy.deepcopy(x) of a plist value (lib): a new value equal to x (values have no identity in the encoding)")
+def _deepcopy(ex, st, args, kwargs, node):
+    return args[0]
+
+
+_SAME_COMPS = ("len(result.components) == len(glyph.components) and all(result.components[k].baseGlyph == glyph.components[k].baseGlyph"
+               " and result.components[k].transformation == glyph.components[k].transformation for k in range(len(glyph.components)))")
+
+contract(
+    "ufo2ft.util:_copyGlyph",
+    name="SX",
+    props=_FL_PROPS,
+    params={"glyph": Ref("SXGlyph"), "glyphFactory": Ref("SXFactory"), "reverseContour": Const(False)},
+    returns=Ref("SXGlyph"),
+    globals={"deepcopy": _Ref("c13.deepcopy")},
+    ensures={
+        "new-object": "fresh(result)",
+        "name": "result.name == glyph.name",
+        # the copy has the same components (base, transformation; new component objects) and as many contours
+        "components": _SAME_COMPS,
+        "contours": "len(result) == len(glyph)",
+        "metrics": "result.width == glyph.width and result.height == glyph.height and result.unicodes == glyph.unicodes",
+        "anchors-lib": "result.anchors == glyph.anchors and result.lib == glyph.lib",
+        # nothing that existed before is written (whole-heap frame)
+        "frame": "result.only_this_written",
+    },
+    canaries={"no-components": "len(result.components) == 0"},
+    modifies=["SXGlyph.components", "SXGlyph.ncontours", "SXGlyph.name", "SXGlyph.width", "SXGlyph.height", "SXGlyph.unicodes", "SXGlyph.anchors", "SXGlyph.lib"],
+)
+
+
+# ---- layers ----------------------------------------------------------------------------------------------------------------
+for _f, _t in (("glyphs", List(Ref("SXGlyph"))), ("name", STR), ("lib", LIBT)):
+    CLASSES["SXLayer"].fields[_f] = _t
+CLASSES["SXLayer"].notes = ("ufoLib2/defcon Layer: iteration yields its glyph objects (`glyphs`, one entry per glyph), `name`, `lib`; instantiateGlyphObject(). "
+                            "Library invariant assumed where stated (`requires`): the glyphs of a layer have pairwise different names")
+
+
+def _layer_iter(ex, st, self, node):
+    from pyvc.stmts import IterInfo
+
+    v = ex.read_field(st, self, "glyphs")
+    s = lift(v)
+    return IterInfo("indexed", n=z3.Length(s), item=lambda i: Val(Ref("SXGlyph"), s[i]), seqval=v)
+
+
+CLASSES["SXLayer"].iter = _layer_iter
+CLASSES["SXLayer"].derived = {**(CLASSES["SXLayer"].derived or {}),
+                              "heap_components": lambda ex, st, self: Val(Map(Ref("SXGlyph"), List(Ref("SXComponent"))), ex.field_array(st, "SXGlyph", "components")),
+                              "heap_ncontours": lambda ex, st, self: Val(Map(Ref("SXGlyph"), INT), ex.field_array(st, "SXGlyph", "ncontours"))}
+CLASSES["SXLayer"].views = {**getattr(CLASSES["SXLayer"], "views", {}), "glyphs": lambda o: list(o)}
+
+
+@trusted("c13.iter", "iter(x): an iterator over x (identified with x)")
+def _iter(ex, st, args, kwargs, node):
+    return args[0]
+
+
+@trusted("c13.next", "next(iter(layer)): the first glyph of the layer; StopIteration if the layer is empty")
+def _next(ex, st, args, kwargs, node):
+    (it,) = args
+    if not (isinstance(it.ty, T.Ref) and it.ty.cls == "SXLayer"):
+        raise Unsupported("next() of something that is not a layer iterator", node)
+    s = lift(ex.read_field(st, it, "glyphs"))
+    ex.safety(st, z3.Length(s) > 0, "StopIteration", node)
+    return Val(Ref("SXGlyph"), s[0])
+
+
+def _new_glyphset(ex, st, d, node):
+    o = ex.new_object(st, "SXGlyphSet")
+    ex.write_field(st, o, "glyphs", d, node)
+    return o
+
+
+@trusted("c13.GlyphSetType",
+         "_GlyphSet (a dict subclass) called as a constructor: _GlyphSet() is a new empty mapping; _GlyphSet(pairs) is a new mapping holding, for "
+         "every key among the pairs, the value of the LAST pair with that key, and no other key")
+def _glyphset_ctor(ex, st, args, kwargs, node):
+    if kwargs or len(args) > 1:
+        raise Unsupported("_GlyphSet(...) with these arguments", node)
+    if not args:
+        from pyvc.core import _lift_py
+
+        return _new_glyphset(ex, st, Val(GLYPHS, _lift_py({}, GLYPHS)), node)
+    pairs = _models.materialize(ex, args[0])
+    pt = pairs.ty
+    if not (isinstance(pt, T.List) and isinstance(pt.elem, T.Tuple) and len(pt.elem.items) == 2 and pt.elem.items[0] == STR):
+        raise Unsupported(f"_GlyphSet(<{pt}>)", node)
+    s = lift(pairs)
+    n = z3.Length(s)
+    ts = pt.elem.sort()
+    fst, snd = ts.accessor(0, 0), ts.accessor(0, 1)
+    d = fresh(GLYPHS, "gsdict")
+    sd = GLYPHS.sort()
+    a = z3.Int(fresh_name("pa"))
+    b = z3.Int(fresh_name("pb"))
+    x = fresh(STR, "px")
+    pos = z3.Function(fresh_name("lastpos"), z3.StringSort(), z3.IntSort())
+    st.assume(z3.ForAll([a], z3.Implies(z3.And(a >= 0, a < n), z3.Select(sd.dom(d), fst(s[a])))))
+    st.assume(z3.ForAll([x], z3.Implies(z3.Select(sd.dom(d), x), z3.And(pos(x) >= 0, pos(x) < n, fst(s[pos(x)]) == x, z3.Select(sd.map(d), x) == snd(s[pos(x)])))))
+    st.assume(z3.ForAll([x, b], z3.Implies(z3.And(z3.Select(sd.dom(d), x), b > pos(x), b < n), fst(s[b]) != x)))
+    _models.dict_wf(st, GLYPHS, d)
+    return _new_glyphset(ex, st, Val(GLYPHS, d), node)
+
+
+GSTYPE = _Ref("c13.GlyphSetType")
+_DISTINCT = "all(all(implies(a != b, layer.glyphs[a].name != layer.glyphs[b].name) for b in range(len(layer.glyphs))) for a in range(len(layer.glyphs)))"
+_LAYER_HELPERS = {"next": _Ref("c13.next"), "iter": _Ref("c13.iter"), "_getNewGlyphFactory": _Ref("c13.opaque_helper")}
+
+
+def _copies(gs, upto):
+    """every glyph layer.glyphs[a], a < upto, has a copy under its name in `gs`: same name, same components (base, transformation), as many contours"""
+    return (f"all({gs}[layer.glyphs[a].name].name == layer.glyphs[a].name and len({gs}[layer.glyphs[a].name]) == len(layer.glyphs[a])"
+            f" and len({gs}[layer.glyphs[a].name].components) == len(layer.glyphs[a].components)"
+            f" and all({gs}[layer.glyphs[a].name].components[k].baseGlyph == layer.glyphs[a].components[k].baseGlyph"
+            f" and {gs}[layer.glyphs[a].name].components[k].transformation == layer.glyphs[a].components[k].transformation for k in range(len(layer.glyphs[a].components)))"
+            f" for a in range({upto}))")
+
+
+contract(
+    "ufo2ft.util:_copyLayer",
+    name="SX",
+    props=_FL_PROPS,
+    params={"layer": Ref("SXLayer"), "obj_type": Const(GSTYPE)},
+    returns=Ref("SXGlyphSet"),
+    globals=_LAYER_HELPERS,
+    calls={"ufo2ft.util:_copyGlyph": "ufo2ft.util:_copyGlyph#SX"},
+    # library invariant of a Layer (a mapping name -> glyph whose glyphs carry their key as name); heap well-formedness (no dangling reference)
+    requires=[_DISTINCT, "all(allocated(g) for g in layer.glyphs)"],
+    ghost_vars={"C0": (Map(Ref("SXGlyph"), List(Ref("SXComponent"))), "layer.heap_components"), "N0": (Map(Ref("SXGlyph"), INT), "layer.heap_ncontours"),
+                "CP": (List(Ref("SXGlyph")), "[]")},
+    ghost={"glyphSet[glyph.name] = _copyGlyph(glyph, glyphFactory=newGlyph)": ["CP = CP + [glyphSet[glyph.name]]"]},
+    ensures={
+        "new-object": "fresh(result)",
+        "keys-sup": "all(layer.glyphs[a].name in result.keyset for a in range(len(layer.glyphs)))",
+        "keys-sub": "all(any(layer.glyphs[a].name == n for a in range(len(layer.glyphs))) for n in result.keyset)",
+        "copies": _copies("result", "len(layer.glyphs)"),
+        "new-glyphs": "all(fresh(result[n]) for n in result.keyset)",
+        "source-untouched": "all(layer.glyphs[a].components == old(layer.glyphs[a].components) and len(layer.glyphs[a]) == old(len(layer.glyphs[a])) for a in range(len(layer.glyphs)))",
+    },
+    canaries={"empty": "all(False for n in result.keyset)"},
+    modifies=["SXGlyph.components", "SXGlyph.ncontours", "SXGlyph.name", "SXGlyph.width", "SXGlyph.height", "SXGlyph.unicodes", "SXGlyph.anchors", "SXGlyph.lib", "SXGlyphSet.glyphs"],
+    loops={
+        "for glyph in layer": Loop(
+            index="i",
+            invariants={
+                "keys-sup": "all(layer.glyphs[a].name in glyphSet.keyset for a in range(i))",
+                "keys-sub": "all(any(layer.glyphs[a].name == n for a in range(i)) for n in glyphSet.keyset)",
+                # CP (ghost) = the copies made so far, in layer order
+                "distinct-names": _DISTINCT,
+                "cp-len": "len(CP) == i",
+                "cp-stored": "all(glyphSet[layer.glyphs[a].name] == CP[a] for a in range(i))",
+                "cp-new": "all(fresh(CP[a]) and allocated(CP[a]) for a in range(i))",
+                "cp-name": "all(CP[a].name == layer.glyphs[a].name for a in range(i))",
+                "cp-contours": "all(len(CP[a]) == len(layer.glyphs[a]) for a in range(i))",
+                "cp-ncomp": "all(len(CP[a].components) == len(layer.glyphs[a].components) for a in range(i))",
+                "cp-comps": "all(all(CP[a].components[k].baseGlyph == layer.glyphs[a].components[k].baseGlyph and CP[a].components[k].transformation == layer.glyphs[a].components[k].transformation"
+                            " for k in range(len(layer.glyphs[a].components))) for a in range(i))",
+                "new-glyphs": "all(fresh(glyphSet[n]) and allocated(glyphSet[n]) for n in glyphSet.keyset)",
+                "new-set": "fresh(glyphSet)",
+                "source-untouched": "all(layer.heap_components[layer.glyphs[a]] == C0[layer.glyphs[a]] and layer.heap_ncontours[layer.glyphs[a]] == N0[layer.glyphs[a]] for a in range(len(layer.glyphs)))",
+            },
+        )
+    },
+)
+
+
+# ---- _GlyphSet.from_layer ---------------------------------------------------------------------------------------------------
+CLASSES["SXLayers"].fields["byname"] = Map(STR, Ref("SXLayer"))
+CLASSES["SXLayers"].fields["names"] = Set(STR)
+
+
+def _layers_getitem(ex, st, self, idx, node):
+    """font.layers[name]: the layer of that name; KeyError if there is none (ufoLib2/defcon LayerSet)"""
+    names = lift(ex.read_field(st, self, "names"))
+    k = lift(idx, STR)
+    ex.safety(st, z3.Select(names, k), "KeyError", node)
+    bn = ex.read_field(st, self, "byname")
+    return Val(Ref("SXLayer"), z3.Select(lift(bn), k))
+
+
+CLASSES["SXLayers"].getitem = _layers_getitem
+
+
+def _skip_filter_ctor(ex, st, args, kwargs, node):
+    """SUMMARY (ufo2ft code outside the engine's subset: BaseFilter.__init__ processes *args / **kwargs with setattr, then calls
+    start()): SkipExportGlyphsFilter(names) is a new filter object whose options.skipExportGlyphs is a frozenset with exactly the
+    members of `names` (start(): `frozenset(self.options.skipExportGlyphs)`) and whose include predicate accepts every glyph
+    (no include= / exclude=).  Bounded check in vcheck/hooks/c13.py."""
+    if kwargs or len(args) != 1:
+        raise Unsupported("SkipExportGlyphsFilter(...) with these arguments", node)
+    (names,) = args
+    if not isinstance(names.ty, T.List):
+        raise Unsupported(f"SkipExportGlyphsFilter(<{names.ty}>)", node)
+    ns = ex.new_object(st, "SXNameSet")
+    ex.write_field(st, ns, "names", _models.seq_to_set(names), node)
+    opts = ex.new_object(st, "SXOptions")
+    ex.write_field(st, opts, "skipExportGlyphs", ns, node)
+    f = ex.new_object(st, "SXFilter")
+    ex.write_field(st, f, "options", opts, node)
+    return f
+
+
+_CTOR_Q = "ufo2ft.filters.skipExportGlyphs.SkipExportGlyphsFilter"
+_FL_MOD = ["SXGlyph.components", "SXGlyph.ncontours", "SXGlyph.name", "SXGlyph.width", "SXGlyph.height", "SXGlyph.unicodes", "SXGlyph.anchors", "SXGlyph.lib",
+           "SXGlyphSet.glyphs", "SXGlyphSet.lib", "SXGlyphSet.name", "SXFilter.context", "SXFilter.options", "SXOptions.skipExportGlyphs", "SXNameSet.names",
+           "SXContext.glyphSet", "SXContext.modified", "SXContext.font", "SXContext.glyphFactory"]
+
+for _nm, _lay, _lnty in (("default-layer", "font.layers.defaultLayer", Const(None)), ("named-layer", "font.layers.byname[layerName]", STR)):
+    _L = lambda s: s.replace("layer.", _lay + ".")  # noqa: E731
+    _skipping = "(skipExportGlyphs is not None and len(skipExportGlyphs) > 0)"
+    contract(
+        "ufo2ft.util:_GlyphSet.from_layer",
+        name=_nm,
+        props=_FL_PROPS,
+        params={"cls": Const(GSTYPE), "font": Ref("SXFont"), "layerName": _lnty, "copy": BOOL, "skipExportGlyphs": Opt(List(STR))},
+        returns=Ref("SXGlyphSet"),
+        globals={"deepcopy": _Ref("c13.deepcopy")},
+        models={_CTOR_Q: _skip_filter_ctor},
+        calls={"ufo2ft.util:_copyLayer": "ufo2ft.util:_copyLayer#SX"},
+        requires=[_L(_DISTINCT), _L("all(allocated(g) for g in layer.glyphs)")],
+        raises=({"KeyError": "layerName not in font.layers.names"} if _nm == "named-layer" else {}),
+        ensures={
+            # the glyph set built from the layer with a skip list: no skipped name is a key ...
+            "skipped-gone": "implies(skipExportGlyphs is not None, all(n not in result.keyset for n in skipExportGlyphs))",
+            # ... every other glyph of the layer is there under its name, and nothing else
+            "others-present": _L("all(implies(skipExportGlyphs is None or layer.glyphs[a].name not in skipExportGlyphs, layer.glyphs[a].name in result.keyset) for a in range(len(layer.glyphs)))"),
+            "no-foreign-key": _L("all(any(layer.glyphs[a].name == n for a in range(len(layer.glyphs))) for n in result.keyset)"),
+            # ... and no remaining glyph has a component whose base is skipped
+            "no-dangling": "implies(skipExportGlyphs is not None, all(all(c.baseGlyph not in skipExportGlyphs for c in result[n].components) for n in result.keyset))",
+            "well-named": "all(result[n].name == n for n in result.keyset)",
+            # copy=True: the glyphs of the result are new objects (the source layer's glyph objects are not in it)
+            "copies-are-new": "implies(copy, all(fresh(result[n]) for n in result.keyset))",
+            # nothing skipped: copies equal to the source glyphs (copy=True) / the source glyph objects themselves (copy=False); the source is not modified
+            "plain-copy": _L(f"implies(copy and not {_skipping}, " + _copies("result", "len(layer.glyphs)") + ")"),
+            "plain-view": _L(f"implies(not copy and not {_skipping}, all(result[layer.glyphs[a].name] == layer.glyphs[a] for a in range(len(layer.glyphs))))"),
+            "source-untouched": _L(f"implies(not {_skipping}, all(layer.glyphs[a].components == old(layer.glyphs[a].components) and len(layer.glyphs[a]) == old(len(layer.glyphs[a])) for a in range(len(layer.glyphs))))"),
+            "layer-name": ("result.name is None" if _nm == "default-layer" else _L("result.name == layer.name")),
+            "lib": _L("result.lib == layer.lib"),
+        },
+        canaries={"empty": "all(False for n in result.keyset)", "all-there": _L("all(layer.glyphs[a].name in result.keyset for a in range(len(layer.glyphs)))")},
+        modifies=_FL_MOD,
+        merge_branches=False,
+    )
+
+
+# ---- run-time side of the from_layer contracts ------------------------------------------------------------------------------
+class _LayerMap(dict):
+    """run-time stand-in for the total map font.layers.byname: a name that is not a layer answers with an empty layer, so that
+    a precondition mentioning it is evaluable (the function itself then raises KeyError, which the raises clause expects)"""
+
+    def __missing__(self, k):
+        from pyvc.rt import Proxy
+        from ufoLib2.objects import Layer
+
+        return Proxy(Layer(name=k), CLASSES["SXLayer"])
+
+
+def _rt_layer_views():
+    from pyvc.rt import Proxy
+
+    def layers_view(ls):
+        return Proxy(ls, CLASSES["SXLayers"])
+
+    CLASSES["SXFont"].views = {**(CLASSES["SXFont"].views or {}), "layers": lambda f: layers_view(f.layers)}
+    CLASSES["SXLayers"].views = {
+        **(CLASSES["SXLayers"].views or {}),
+        "defaultLayer": lambda ls: Proxy(ls.defaultLayer, CLASSES["SXLayer"]),
+        "byname": lambda ls: _LayerMap({l.name: Proxy(l, CLASSES["SXLayer"]) for l in ls}),
+        "names": lambda ls: {l.name for l in ls},
+    }
+
+
+_rt_layer_views()
+
+
+def _fl_cases(rng, n):
+    out = []
+    for k, d in enumerate(graph_cases(rng, n)):
+        d = dict(d)
+        d["copy"] = rng.random() < 0.6
+        d["layer"] = rng.choice([None, "public.default", "bg"])
+        if k % 10 == 7:
+            d["skip"] = None
+        if k % 17 == 3:
+            d["layer"] = "no-such-layer"
+        out.append(d)
+    return out
+
+
+def _fl_font(d):
+    from . import rtlib
+
+    font = rtlib.build_ufo(d)
+    bg = font.newLayer("bg")
+    for g in font:
+        g2 = bg.newGlyph(g.name)
+        g2.width = g.width + 10
+        pen = g2.getPointPen()
+        g.drawPoints(pen)
+    return font
+
+
+def _fl_cases_for(want_named):
+    def gen(rng, n):
+        return [d for d in _fl_cases(rng, 2 * n + 4) if (d["layer"] is not None) == want_named][:n]
+
+    return gen
+
+
+def _b_from_layer(d):
+    return {"font": _fl_font(d), "layerName": d["layer"], "copy": d["copy"], "skipExportGlyphs": (list(d["skip"]) if d["skip"] is not None else None)}
+
+
+def _call_from_layer(fn, a):
+    from ufo2ft.util import _GlyphSet
+
+    return _GlyphSet.from_layer(a["font"], a["layerName"], copy=a["copy"], skipExportGlyphs=a["skipExportGlyphs"])
+
+
+def _b_copy_layer(d):
+    from ufo2ft.util import _GlyphSet
+
+    font = _fl_font(d)
+    return {"layer": font.layers["bg"] if d["layer"] == "bg" else font.layers.defaultLayer, "obj_type": _GlyphSet}
+
+
+def _b_copy_glyph(d):
+    font = _fl_font(d)
+    _KEEP_FONTS.append(font)
+    del _KEEP_FONTS[:-20]
+    return {"glyph": font[d["target"]], "glyphFactory": None}
+
+
+_KEEP_FONTS = []
+CONTRACTS["ufo2ft.util:_copyGlyph#SX"].runtime = Runtime(_fl_cases, _b_copy_glyph)
+CONTRACTS["ufo2ft.util:_copyLayer#SX"].runtime = Runtime(_fl_cases, _b_copy_layer)
+CONTRACTS["ufo2ft.util:_GlyphSet.from_layer#default-layer"].runtime = Runtime(_fl_cases_for(False), _b_from_layer, _call_from_layer)
+CONTRACTS["ufo2ft.util:_GlyphSet.from_layer#named-layer"].runtime = Runtime(_fl_cases_for(True), _b_from_layer, _call_from_layer)
